@@ -278,3 +278,28 @@ def inline_locals(fn_node, e, depth: int = 3):
                 return T(self.d - 1).visit(_copy.deepcopy(defs[n.id]))
             return n
     return T(depth).visit(_copy.deepcopy(e))
+
+
+def comp_of_append_loop(scope, name: str):
+    """`name = []; for T in I: [if c:] name.append(E)` (the only statements that touch ``name`` before its use) as the
+    comprehension [E for T in I if c] it is; None when ``name`` is built in any other way"""
+    inits = [n for n in ast.walk(scope) if isinstance(n, ast.Assign) and len(n.targets) == 1 and isinstance(n.targets[0], ast.Name) and
+             n.targets[0].id == name]
+    if len(inits) != 1 or not (isinstance(inits[0].value, ast.List) and not inits[0].value.elts):
+        return None
+    loops = [l_ for l_ in ast.walk(scope) if isinstance(l_, ast.For) and not l_.orelse and
+             any(isinstance(x, ast.Call) and isinstance(x.func, ast.Attribute) and x.func.attr == "append" and
+                 isinstance(x.func.value, ast.Name) and x.func.value.id == name for x in ast.walk(l_))]
+    # the innermost loop that appends
+    loops = [l_ for l_ in loops if not any(m is not l_ and any(y is m for y in ast.walk(l_)) for m in loops)]
+    if len(loops) != 1 or len(loops[0].body) != 1:
+        return None
+    st, ifs = loops[0].body[0], []
+    while isinstance(st, ast.If) and not st.orelse and len(st.body) == 1:
+        ifs.append(st.test)
+        st = st.body[0]
+    if not (isinstance(st, ast.Expr) and isinstance(st.value, ast.Call) and isinstance(st.value.func, ast.Attribute) and st.value.func.attr == "append" and
+            isinstance(st.value.func.value, ast.Name) and st.value.func.value.id == name and len(st.value.args) == 1):
+        return None
+    lc = ast.ListComp(elt=st.value.args[0], generators=[ast.comprehension(target=loops[0].target, iter=loops[0].iter, ifs=ifs, is_async=0)])
+    return ast.fix_missing_locations(ast.copy_location(lc, loops[0]))
